@@ -3,6 +3,9 @@ package main
 import "time"
 
 type runSpec struct {
+	// procs: GOMAXPROCS values the batches cycle through (0 = the machine's own count): code that sizes
+	// anything by the number of processors, and schedules with fewer threads than goroutines
+	procs []int
 	engine     string
 	race       bool
 	netns      bool
@@ -56,7 +59,7 @@ func allocSpec(nontrivial string, guards ...guard) *propSpec {
 		rule:        allocRule + nontrivial,
 		assumptions: assume("Free of a super-prefix covering several blocks and wrong-family Free on the IPv6 allocator are outside the statement and are not generated"),
 		runs: []runSpec{
-			{engine: "alloc", loglevel: "fatal", qBatches: 16, qCases: 750, tBatches: 64, tCases: 12000},
+			{engine: "alloc", loglevel: "fatal", procs: []int{0, 3, 6, 1, 12, 5, 2, 7}, qBatches: 16, qCases: 750, tBatches: 64, tCases: 12000},
 			// the same histories against a 32-bit build of the allocators (word-size dependent shifts and
 			// conversions of block indexes); pools of 2^32 blocks and more are skipped there
 			{engine: "alloc", pkg: "./cmd/varith", goarch: "386", qBatches: 8, qCases: 250, tBatches: 32, tCases: 1500},
@@ -102,7 +105,7 @@ func raceSlice() runSpec {
 	return runSpec{engine: "raceserver", race: true, netns: true, parallel: 8, qBatches: 8, qCases: 1, tBatches: 16, tCases: 3, stall: 6 * time.Minute}
 }
 
-var allocConcRun = runSpec{engine: "allocconc", race: true, loglevel: "fatal", parallel: 4, qBatches: 8, qCases: 50, tBatches: 32, tCases: 200}
+var allocConcRun = runSpec{engine: "allocconc", race: true, loglevel: "fatal", procs: []int{0, 3, 6, 12, 0, 5, 2, 7}, parallel: 4, qBatches: 8, qCases: 50, tBatches: 32, tCases: 200}
 
 var specs = map[string]*propSpec{
 	"C04": allocSpec("Non-trivial (C04) = history in which a block was re-allocated after a successful Free; distinct by (pool, seed).",
@@ -214,7 +217,7 @@ var specs = map[string]*propSpec{
 			{engine: "raceserver", race: true, netns: true, parallel: 8, qBatches: 8, qCases: 3, tBatches: 64, tCases: 20, stall: 6 * time.Minute},
 			{engine: "rangeconc", race: true, parallel: 8, qBatches: 8, qCases: 8, tBatches: 64, tCases: 50},
 			{engine: "prefixconc", race: true, parallel: 8, qBatches: 8, qCases: 8, tBatches: 64, tCases: 50},
-			{engine: "allocconc", race: true, parallel: 8, qBatches: 8, qCases: 20, tBatches: 64, tCases: 200},
+			{engine: "allocconc", race: true, procs: []int{0, 3, 6, 12, 0, 5, 2, 7}, parallel: 8, qBatches: 8, qCases: 20, tBatches: 64, tCases: 200},
 			// a slice of the sequential range engine for its lock-fault cases: two datagrams of a new client in
 			// flight while another connection holds the database's write lock (no Go-level race involved)
 			{engine: "range", parallel: 4, qBatches: 2, qCases: 16, tBatches: 8, tCases: 16},
